@@ -48,7 +48,10 @@ Serve(u, st, x) ==
          THEN Ans(201, [st EXCEPT !.blobs = @ \cup {<<x.repo, x.bodydg>>}, !.uploads = @ \ {<<x.ref, x.repo>>}])
          ELSE Ans(400, st)
     [] x.route = "manifest" /\ x.method \in {"GET", "HEAD"} ->
-         IF ManifestOf(st, x.repo, x.ref, u) # "" THEN Ans(200, st) ELSE Ans(404, st)
+         \* content negotiation: a registry may refuse a manifest whose media type the Accept header does not list
+         LET d == ManifestOf(st, x.repo, x.ref, u)
+             refused == u.profile.strictaccept /\ x.acceptl # <<>> /\ Lookup(st.mtype, d) \notin Rng(x.acceptl) /\ "*/*" \notin Rng(x.acceptl)
+         IN IF d # "" /\ ~refused THEN Ans(200, st) ELSE Ans(404, st)
     [] x.route = "manifest" /\ x.method = "PUT" ->
          IF ~IsTag(u, x.ref) /\ x.ref # x.bodydg THEN Ans(400, st)
          ELSE [status |-> 201,
@@ -82,6 +85,7 @@ Allowed(u, st, x) ==
                                    /\ "digest" \in Keys(x) /\ Keys(x) \subseteq {"digest", "state"}       \* the Location's own query is kept
                                    /\ <<x.ref, x.repo>> \in st.uploads
        [] x.route = "tags" -> x.method = "GET" /\ PathIs(x, "/tags/list") /\ Keys(x) \subseteq {"n", "last"}
-       [] x.route = "referrers" -> x.method = "GET" /\ PathIs(x, "/referrers/" \o x.ref) /\ Keys(x) \subseteq {"artifactType"} /\ ~IsTag(u, x.ref)
+       \* "verifafter" is the continuation parameter of the model registry's own Link header (followed verbatim)
+       [] x.route = "referrers" -> x.method = "GET" /\ PathIs(x, "/referrers/" \o x.ref) /\ Keys(x) \subseteq {"artifactType", "verifafter"} /\ ~IsTag(u, x.ref)
        [] OTHER -> FALSE
 =============================================================================
